@@ -507,6 +507,36 @@ def run(tier):
             rep.violates("C17.fast", FD + "::" + f["name"], "levels only grow; index[I] < size() at exit", where=d.where(bad[0]), detail=bad[1])
         else:
             rep.holds("C17.fast", FD + "::" + f["name"], "levels only grow; index[I] < size() at exit", where=d.where(f), detail="%d path(s), %d resize event(s)" % (npaths, nres))
+    # the nested tables are std::vector with four members let through: resize_container derives a fresh class index from size() right after resize(n),
+    # so resize must give exactly n elements (a growth policy in the wrapper hands the same slot to two classes)
+    rc_methods = [f for (c_, n_), fl in fns.items() if c_ == "recursive_container_impl" for f in fl if n_ in ("resize", "size", "operator[]")]
+    bad_rc = inc_rc = None
+    for f in rc_methods:
+        ps = [p_.get("name") for p_ in ir.params(f)]
+        sts = [x for x in ir.kids(ir.body(f)) if x.get("kind") not in ("NullStmt",)]
+        e = None
+        if len(sts) == 1:
+            e = sts[0]
+            if e.get("kind") == "ReturnStmt" and ir.ekids(e):
+                e = ir.ekids(e)[0]
+            e = ir.strip(e)
+        t = norm.deep_uncast(ir.sx(e)) if e is not None else None
+        fwd = t is not None and t[0] == "call" and ir.show(t[1]).split("::")[-1].split(".")[-1].split("->")[-1].strip(")") .endswith(f.get("name").replace("operator", "operator")) and \
+            [norm.uncast(a) for a in t[2:]] == [("ref", p_) for p_ in ps]
+        if fwd:
+            continue
+        if f.get("name") == "resize" and t is not None and t[0] == "call" and "resize" in ir.show(t[1]) and len(t) >= 3 and norm.uncast(t[2]) != ("ref", ps[0] if ps else "?"):
+            bad_rc = (f, "resize(%s) gives the table `%s` elements: resize_container takes size() - 1 as the index of a class it sees for the first time, so a table that grows by more "
+                         "than was asked hands out an index that m_next_index will hand out again" % (ps[0] if ps else "", ir.show(t[2])[:60]))
+        else:
+            inc_rc = (f, "own %s does not simply forward to std::vector's" % f.get("name"))
+    if bad_rc:
+        rep.violates("C17.fast", "recursive_container_impl::resize", "the tables are plain vectors: resize(n) gives n elements", where=d.where(bad_rc[0]), detail=bad_rc[1])
+    elif inc_rc:
+        rep.inconclusive("C17.fast", "recursive_container_impl::" + inc_rc[0].get("name"), "the tables are plain vectors: resize(n) gives n elements", where=d.where(inc_rc[0]), detail=inc_rc[1])
+    else:
+        rep.holds("C17.fast", "recursive_container_impl", "the tables are plain vectors: resize(n) gives n elements", detail="size/resize/operator[] are std::vector's (%s)" % (
+            "using-declarations" if not rc_methods else "%d forwarding member(s)" % len(rc_methods)))
     from . import c17_fast
     c17_fast.rule_fast_inst(rep)
     # ---- functor dispatcher ----
